@@ -346,21 +346,49 @@ theorem C17_mgr_locked_denies (A : AEAD) (m : Mgr) (kt : Nat) (n x : Bytes)
     rcases hk with rfl | rfl <;> rcases hl with h | h <;> simp [h]
   simp [Mgr.encrypt, Mgr.decrypt, this]
 
-/-- The manager returns data only for genuine ciphertexts under the key of the requested type. -/
+/-- The manager returns data only for genuine ciphertexts under the key of the requested type — with ONE documented
+exception (/repo b81a3ff, `decryptLegacyScript`): for CKTScript a box sealed under the all-zero key (a row written by a
+version that never restored the script key) is still readable. Nothing else opens. -/
 theorem C17_mgr_tamper (A : AEAD) (hA : A.Correct) (m : Mgr) (kt : Nat) (c' p : Bytes)
     (h : m.decrypt A kt c' = .ok p) :
-    ∃ k, m.selectCryptoKey kt = .ok k ∧ nonceSize ≤ c'.length ∧ c' = encryptWith A (c'.take nonceSize) k p := by
+    ∃ k, m.selectCryptoKey kt = .ok k ∧ nonceSize ≤ c'.length ∧
+      (c' = encryptWith A (c'.take nonceSize) k p ∨
+       (kt = 1 ∧ c' = encryptWith A (c'.take nonceSize) zeroKey p)) := by
   unfold Mgr.decrypt at h
   cases hk : m.selectCryptoKey kt with
   | error e => simp [hk] at h
   | ok k =>
     simp only [hk] at h
     cases hd : decrypt A k c' with
-    | error e => simp [hd] at h
+    | error e =>
+      simp only [hd] at h
+      by_cases h1 : kt = 1
+      · subst h1
+        simp only [beq_self_eq_true, if_true] at h
+        unfold decryptLegacyScript at h
+        cases hz : decrypt A zeroKey c' with
+        | error e' => simp [hz] at h
+        | ok p' =>
+          simp only [hz, Except.ok.injEq] at h
+          subst h
+          have := (C17_tamper A hA zeroKey c' p').mp hz
+          exact ⟨k, rfl, this.1, Or.inr ⟨rfl, this.2⟩⟩
+      · have : (kt == 1) = false := by simpa using h1
+        simp [this] at h
     | ok p' =>
       simp only [hd, Except.ok.injEq] at h
       subst h
-      exact ⟨k, rfl, (C17_tamper A hA k c' p').mp hd⟩
+      have := (C17_tamper A hA k c' p').mp hd
+      exact ⟨k, rfl, this.1, Or.inl this.2⟩
+
+/-- For every key type other than CKTScript there is no fallback: data comes back only for genuine ciphertexts under
+that type's key. -/
+theorem C17_mgr_tamper_strict (A : AEAD) (hA : A.Correct) (m : Mgr) (kt : Nat) (c' p : Bytes) (hkt : kt ≠ 1)
+    (h : m.decrypt A kt c' = .ok p) :
+    ∃ k, m.selectCryptoKey kt = .ok k ∧ nonceSize ≤ c'.length ∧ c' = encryptWith A (c'.take nonceSize) k p := by
+  obtain ⟨k, h1, h2, h3 | ⟨h4, _⟩⟩ := C17_mgr_tamper A hA m kt c' p h
+  · exact ⟨k, h1, h2, h3⟩
+  · exact absurd h4 hkt
 
 /-- `lock()` zeroes every private key of the hierarchy. -/
 theorem C17_mgr_lock_zeroes (m : Mgr) :
@@ -387,20 +415,26 @@ theorem C17_mgr_unlock_failure_locks (A : AEAD) (K : KDF) (m : Mgr) (pass : Byte
       split
       · simp [Mgr.lock, SecretKey.zero]
       · rename_i k hk
-        simp [hlk, hsk, hk] at h
+        split
+        · simp [Mgr.lock, SecretKey.zero]
+        · rename_i ks hks
+          simp [hlk, hsk, hk, hks] at h
 
 /-- Restart + unlock: what `Create` stored re-opens with the public passphrase (locked, public crypto key restored,
-private one zero) and `Unlock` with the private passphrase restores exactly the private crypto key that was created. -/
+private ones zero) and `Unlock` with the private passphrase restores exactly the private AND the script crypto key
+that were created (/repo b81a3ff); from then on `Encrypt(CKTScript, …)` seals under the created script key — never
+under the all-zero key unless the created key itself were zero. -/
 theorem C17_mgr_restart_unlock (A : AEAD) (hA : A.Correct) (K : KDF) (hH : ∀ x, (K.hash x).length = digestSize)
     (r : CreateRand) (pubPass privPass : Bytes) (N R P : Int)
     (hN : -(two63 : Int) ≤ N ∧ N < (two63 : Int)) (hR : -(two63 : Int) ≤ R ∧ R < (two63 : Int))
     (hP : -(two63 : Int) ≤ P ∧ P < (two63 : Int))
     (hs1 : r.saltPub.length = keySize) (hs2 : r.saltPriv.length = keySize)
-    (hn1 : r.nPub.length = nonceSize) (hn2 : r.nPriv.length = nonceSize)
+    (hn1 : r.nPub.length = nonceSize) (hn2 : r.nPriv.length = nonceSize) (hn3 : r.nScript.length = nonceSize)
     (d : MgrDisk) (h : Mgr.create A K r pubPass (some privPass) N R P = .ok d) :
     ∃ m, Mgr.open_ A K d pubPass = .ok m ∧ m.locked = true ∧ m.cryptoKeyPub = r.keyPub ∧ m.cryptoKeyPriv = zeroKey ∧
       ∃ m', m.unlock A K privPass = (m', .ok ()) ∧ m'.locked = false ∧ m'.cryptoKeyPriv = r.keyPriv ∧
-        m'.cryptoKeyPub = r.keyPub := by
+        m'.cryptoKeyPub = r.keyPub ∧ m'.cryptoKeyScript = r.keyScript ∧
+        ∀ n x, m'.encrypt A 1 n x = .ok (encryptWith A n r.keyScript x) := by
   unfold Mgr.create at h
   cases h1 : newSecretKey K r.saltPub pubPass N R P with
   | error e => simp [h1] at h
@@ -416,6 +450,8 @@ theorem C17_mgr_restart_unlock (A : AEAD) (hA : A.Correct) (K : KDF) (hH : ∀ x
         C17_roundtrip A hA r.nPub mPub.key r.keyPub hn1
       have r2 : mPriv.decrypt A (mPriv.encryptWith A r.nPriv r.keyPriv) = .ok r.keyPriv :=
         C17_roundtrip A hA r.nPriv mPriv.key r.keyPriv hn2
+      have r3 : mPriv.decrypt A (mPriv.encryptWith A r.nScript r.keyScript) = .ok r.keyScript :=
+        C17_roundtrip A hA r.nScript mPriv.key r.keyScript hn3
       have ho : Mgr.open_ A K
           { watchOnly := false, masterPubParams := mPub.marshal, masterPrivParams := mPriv.marshal,
             cryptoKeyPubEnc := mPub.encryptWith A r.nPub r.keyPub,
@@ -433,9 +469,41 @@ theorem C17_mgr_restart_unlock (A : AEAD) (hA : A.Correct) (K : KDF) (hH : ∀ x
               { watchOnly := false, locked := false, masterKeyPub := mPub, masterKeyPriv := mPriv,
                 cryptoKeyPub := r.keyPub, cryptoKeyPrivEncrypted := mPriv.encryptWith A r.nPriv r.keyPriv,
                 cryptoKeyPriv := r.keyPriv, cryptoKeyScriptEncrypted := mPriv.encryptWith A r.nScript r.keyScript,
-                cryptoKeyScript := zeroKey, privPass := some privPass }, ?_, rfl, rfl, rfl⟩
-      unfold Mgr.unlock
-      simp only [Bool.false_eq_true, if_false, Bool.not_true, d2, r2]
+                cryptoKeyScript := r.keyScript, privPass := some privPass }, ?_, rfl, rfl, rfl, rfl, ?_⟩
+      · unfold Mgr.unlock
+        simp only [Bool.false_eq_true, if_false, Bool.not_true, d2, r2, r3]
+      · intro n x
+        simp [Mgr.encrypt, Mgr.selectCryptoKey]
+/-- After ANY successful `Unlock` of a locked manager the script key in memory is what the private master key opens
+from `cryptoKeyScriptEncrypted`, and every `Encrypt(CKTScript, …)` seals under exactly that key (the all-zero key of
+the locked state is gone). -/
+theorem C17_mgr_script_key_after_unlock (A : AEAD) (K : KDF) (m m' : Mgr) (pass : Bytes)
+    (hw : m.watchOnly = false) (hl : m.locked = true) (h : m.unlock A K pass = (m', .ok ())) :
+    (m.masterKeyPriv.deriveKey K pass).1.decrypt A m.cryptoKeyScriptEncrypted = .ok m'.cryptoKeyScript ∧
+    (m.masterKeyPriv.deriveKey K pass).1.decrypt A m.cryptoKeyPrivEncrypted = .ok m'.cryptoKeyPriv ∧
+    m'.locked = false ∧
+    ∀ n x, m'.encrypt A 1 n x = .ok (encryptWith A n m'.cryptoKeyScript x) := by
+  unfold Mgr.unlock at h
+  simp only [hw, hl, Bool.false_eq_true, if_false, Bool.not_true] at h
+  cases hd : m.masterKeyPriv.deriveKey K pass with
+  | mk sk res =>
+    rw [hd] at h
+    cases res with
+    | error e => cases e <;> simp at h
+    | ok u =>
+      simp only at h
+      cases hp : sk.decrypt A m.cryptoKeyPrivEncrypted with
+      | error e => simp [hp] at h
+      | ok k =>
+        cases hs : sk.decrypt A m.cryptoKeyScriptEncrypted with
+        | error e => simp [hp, hs] at h
+        | ok ks =>
+          simp only [hp, hs, Prod.mk.injEq, and_true] at h
+          subst h
+          refine ⟨rfl, rfl, rfl, ?_⟩
+          intro n x
+          simp [Mgr.encrypt, Mgr.selectCryptoKey]
+
 /-- A private passphrase with a different key block: ErrWrongPassphrase, manager locked, private keys zero.
 `_partial` for the same reason as `C17_derive_wrong_pass_partial`. -/
 theorem C17_mgr_unlock_wrong_pass_partial (A : AEAD) (K : KDF) (B : Bytes → Prop) (salt pass pass' : Bytes) (N R P : Int)
